@@ -525,6 +525,63 @@ def check(ctx):
             ctx.violation('C05.R8', rel, fe, '%s::Integer.encode [%s]' % (rel, kind), '%s: %s' % (label, msg), stmt='INTEGER %s' % kind)
 
 
+    # ---- R10: the index of a CHOICE root alternative is the constrained whole number (0..n-1) of X.691 23.6 -- evaluated on the class the
+    #      per / uper dispatch constructs for CHOICE, with the configuration its own __init__ computes for n alternatives
+    ctx.rule('C05.R10', 'type level: CHOICE root index bits == X.691 23.6 / 11.5 (aligned and unaligned), encoder and decoder')
+    for rel, aligned, codec_ in ((PER, True, 'per'), (UPER, False, 'uper')):
+        cm = model.mod(rel)
+        ccell = dispatch.table(model, codec_).cells.get('CHOICE')
+        ccls = ccell.cls if ccell is not None else None
+        wr = ccls.find_method('encode_root_index') if ccls is not None else None
+        rd = ccls.find_method('decode_root_index') if ccls is not None else None
+        init_ = ccls.find_method('__init__') if ccls is not None else None
+        if not (wr and rd and init_):
+            ctx.instance('C05.R10', '%s CHOICE root index' % codec_, 'undecided', 'the index writer / reader of the CHOICE class is not a method of its own', nontrivial=False,
+                         node=ccls.node if ccls is not None else None, file=rel)
+            continue
+        Em = bitmachine.Machine(model, cm.classes.get('Encoder') or enc, 'enc', align_noop=not aligned)
+        Dm = bitmachine.Machine(model, cm.classes.get('Decoder') or dec, 'dec', align_noop=not aligned)
+        ip = flow.param_names(init_[1])
+        pw, pr = flow.param_names(wr[1]), flow.param_names(rd[1])
+        n_ok = n_und = 0
+        und = None
+        first_bad = None
+        for n_alt in (2, 3, 4, 5, 16, 17, 128, 255, 256, 257, 300, 1000, 65535, 65536):
+            try:
+                _r, ienv = evalexpr.run_function(init_[1], {ip[1]: 'x', ip[2]: [None] * n_alt, ip[3]: None}, skip_calls=True, tolerant=True)
+                cfg = {k: v_ for k, v_ in ienv.items() if isinstance(k, str) and k.startswith('self.') and v_ is not evalexpr.UNKNOWN}
+            except (evalexpr.Unsupported, evalexpr.Raised, KeyError, TypeError, IndexError) as e:
+                n_und += 1
+                und = und or 'CHOICE of %d alternatives: %s' % (n_alt, e)
+                continue
+            for index in sorted({0, 1, n_alt // 2, n_alt - 1}):
+                label = 'CHOICE of %d alternatives, alternative %d' % (n_alt, index)
+                want = ref_integer('101', 0, n_alt - 1, False, index, aligned)
+                try:
+                    args = [index if p_ != pw[-1] else None for p_ in pw[1:]]
+                    bits, _ = Em.run_fn(wr[1], pw[-1], args, cfg, '101')
+                    msg = None
+                    if bits != want:
+                        msg = 'X.691 prescribes %s after the 3-bit prefix, the encoder emits %s' % (want[3:] or '(nothing)', bits[3:] or '(nothing)')
+                    else:
+                        got, pos = Dm.run_fn(rd[1], pr[-1], [None] * (len(pr) - 1), cfg, want + PAD, 3)
+                        if got != index or pos != len(want):
+                            msg = 'the decoder reads %r (ending at bit %d) from the %d-bit encoding' % (got, pos, len(want))
+                except (evalexpr.Unsupported, bitmachine.Undecided, KeyError, TypeError) as e:
+                    n_und += 1
+                    und = und or '%s: %s' % (label, e)
+                    continue
+                except (bitmachine.Raised, evalexpr.Raised) as e:
+                    msg = 'raises %s' % getattr(e, 'name', 'an error')
+                if msg is None:
+                    n_ok += 1
+                elif first_bad is None:
+                    first_bad = (label, msg)
+        ctx.instance('C05.R10', '%s -> %s: %d (alternatives, index) cases evaluated, %d undecided' % (codec_, ccls.qname, n_ok, n_und),
+                     'VIOLATION' if first_bad else ('ok' if n_ok else 'undecided'), und or '', nontrivial=n_ok > 0, node=wr[1], file=wr[0].mod.rel)
+        if first_bad:
+            ctx.violation('C05.R10', wr[0].mod.rel, wr[1], "%s dispatch['CHOICE'] -> %s.encode_root_index" % (codec_, ccls.qname), '%s: %s' % first_bad, stmt='CHOICE index %s' % codec_)
+
     # ---- R9 copy discipline: compiled user types are cached and shared by every reference; a member-level constraint configured on
     #      the shared object changes the encoding of unrelated components
     from .. import copyrule
@@ -585,3 +642,15 @@ MUTANTS = [
         elif _range == 256:""", expect='C05.R1'),
 ]
 REFACTORS = []
+
+MUTANTS.append(dict(name='uper.Choice index override removed (aligned index in UPER for >= 256 alternatives)', file=UPER,
+                    old="""class Choice(per.Choice):
+
+    def encode_root_index(self, index, encoder):
+        encoder.append_non_negative_binary_integer(index, self.root_number_of_bits)
+
+    def decode_root_index(self, decoder):
+        return decoder.read_non_negative_binary_integer(self.root_number_of_bits)
+""", new="""class Choice(per.Choice):
+    pass
+""", expect='C05.R10'))
